@@ -36,7 +36,14 @@ def cases(draw, tier):
     pool = sorted(set([min(x), max(x), float(np.mean(x)), float(np.median(x)), 0.0] + x[:4]))
     lo = draw(st.one_of(st.sampled_from(pool), st.floats(-15, 15, allow_nan=False)))
     hi = draw(st.one_of(st.sampled_from([v for v in pool if v >= lo] or [lo]), st.floats(0, 20, allow_nan=False).map(lambda d: lo + d)))
-    return {"inner": ispec, "stat": stat, "lo": lo, "hi": hi, "x": x,
+    prefit = None
+    if draw(st.integers(0, 3)) == 0:
+        # the user may pass a detector that is already fitted (on other data): a clone must still be
+        # fitted on the anomaliser's own training data and the user's object must stay as it is
+        npre = draw(st.integers(max(n, 8), 40))
+        Xp, _ = draw(D.structured_matrix(npre, 1, max_shifts=2, max_spikes=1, max_bumps=0))
+        prefit = [row[0] * 3.0 for row in Xp]
+    return {"inner": ispec, "stat": stat, "lo": lo, "hi": hi, "x": x, "prefit": prefit,
             "container": draw(st.sampled_from(["DataFrame", "Series", "ndarray1d", "ndarray2d"])),
             "index": draw(D.index_spec())}
 
@@ -63,14 +70,31 @@ def check(case):
     stat = K.CALLABLES[case["stat"]]
     Xc = to_container(case["x"], case["container"], case["index"])
     user_det = K.build(case["inner"])
+    prefit = case.get("prefit")
+    fitted_before = None
+    if prefit is not None:
+        try:
+            user_det.fit(np.asarray(prefit, dtype=float).reshape(-1, 1))
+            fitted_before = {a: getattr(user_det, a) for a in ("threshold_", "penalty_", "n_fit_") if hasattr(user_det, a)}
+        except ValueError:
+            prefit = None
+            user_det = K.build(case["inner"])
     params_before = repr(sorted(user_det.get_params(deep=True).items(), key=lambda kv: kv[0]))
     with sut("StatThresholdAnomaliser.fit/predict"):
         det = StatThresholdAnomaliser(user_det, stat, case["lo"], case["hi"]).fit(Xc)
         y = det.predict(Xc)
     # the user's detector object is neither fitted nor altered
-    if getattr(user_det, "_is_fitted", False) or hasattr(user_det, "threshold_") or hasattr(user_det, "penalty_") \
-            or hasattr(user_det, "n_fit_"):
-        raise Violation("the wrapped detector passed by the user was fitted (a clone should be)", inner=case["inner"])
+    if prefit is None:
+        if getattr(user_det, "_is_fitted", False) or hasattr(user_det, "threshold_") or hasattr(user_det, "penalty_") \
+                or hasattr(user_det, "n_fit_"):
+            raise Violation("the wrapped detector passed by the user was fitted (a clone should be)", inner=case["inner"])
+    else:
+        after = {a: getattr(user_det, a) for a in ("threshold_", "penalty_", "n_fit_") if hasattr(user_det, a)}
+        if after != fitted_before:
+            raise Violation("the (already fitted) wrapped detector passed by the user was re-fitted or altered",
+                            before=str(fitted_before), after=str(after))
+        if getattr(det, "change_detector_", None) is user_det:
+            raise Violation("the anomaliser uses the user's detector object itself instead of a clone")
     if repr(sorted(user_det.get_params(deep=True).items(), key=lambda kv: kv[0])) != params_before:
         raise Violation("the wrapped detector's hyper-parameters were altered", inner=case["inner"])
     if det.change_detector is not user_det:
@@ -95,6 +119,8 @@ def check(case):
                         changepoints=cpts, expected=[list(e) for e in want], got=[list(e) for e in got],
                         stat=case["stat"], lo=case["lo"], hi=case["hi"])
     classes = [f"inner={case['inner']['cls']}", f"container={case['container']}", f"stat={case['stat']}"]
+    if prefit is not None:
+        classes.append("user_detector_already_fitted")
     if any(e1[1] == e2[0] for e1, e2 in zip(want[:-1], want[1:])):
         classes.append("adjacent_flagged_segments")
     if want and len(want) < len(bounds) - 1:
